@@ -159,4 +159,14 @@ def build(tier, seed, only=None):
                 assumptions=['std::forward_list::emplace_front = new node constructed in place and linked in front, earlier nodes untouched (harness/flmodel.h); operator new returns fresh storage',
                              'operands are arbitrary foreign nodes, pairwise distinct; accessors a factory calls on an operand are arbitrary functions of the receiver',
                              'the factory object is in the state of a freshly constructed Lexicon (empty tables); generative factories do not read their farms'])
-    return [u], obs, meta
+    # factories of unified nodes (types, names, atoms) and member sequences report what they were given too: those obligations belong to
+    # C01 / C04 / C11 / C14 and are run here as well (their assertions labelled C02 are the read-back clauses)
+    import C04, C11, C14
+    xu, xo = [], []
+    for mod, keep in ((C04, lambda o: o.id.startswith('C04.get.')), (C11, lambda o: o.id == 'C11.get_qualified'), (C14, lambda o: o.id in ('C14.prim.obj_list', 'C14.prim.obj_sequence', 'C14.prim.ref_sequence'))):
+        uu, oo, mm = mod.build(tier, seed)
+        oo = [o for o in oo if keep(o)]
+        for o in oo:
+            o.id = 'C02.also.' + o.id
+        xu += [x for x in uu if any(o.unit is x for o in oo)]; xo += oo
+    return [u] + xu, obs + xo, meta
